@@ -1884,6 +1884,10 @@ func errLostOnSomePath(c *Ctx, fn *ssa.Function, call *ssa.Call) string {
 						return
 					}
 				}
+				// a return that already reports some other failure is not silent
+				if n := len(x.Results); n > 0 && isErrorType(x.Results[n-1].Type()) && !ReturnsNilError(x) && !retMayBeNil(x) {
+					return
+				}
 				if len(st.alias) == 0 && len(st.cells) == 0 {
 					lost = c.Rel(x.Pos()) + ": on a path to this return the error has been overwritten before anything looked at it"
 				} else {
@@ -1915,14 +1919,14 @@ func errLostOnSomePath(c *Ctx, fn *ssa.Function, call *ssa.Call) string {
 }
 
 func c17ErrorsExamined(c *Ctx, r *Report) {
-	r.Rule("R17.14", "an output error is looked at on every path: in pkg/output, pkg/stream and pkg/entrypoint, the error result of every Flush / Close / Write* / Rename / Chmod call that is not discarded outright (R17.6) is, on each path from the call to a return, compared with nil, returned, sent or passed on — never overwritten first (retval = Flush(); retval = Close() loses the flush error)")
+	r.Rule("R17.14", "an output error is looked at on every path: in the output, stream, entry-point, verb, interpreter, command-line and library packages, the error result of every Flush / Close / Write* / Rename / Chmod call that is not discarded outright (R17.6) is, on each path from the call to a return, compared with nil, returned, sent or passed on — never overwritten first (retval = Flush(); retval = Close() loses the flush error); a path that returns a different, certainly non-nil error is already reporting a failure")
 	n := 0
 	for _, fn := range c.ModuleFunctions() {
 		if fn.Pkg == nil {
 			continue
 		}
 		pp := fn.Pkg.Pkg.Path()
-		if !(strings.HasSuffix(pp, "/pkg/output") || strings.HasSuffix(pp, "/pkg/stream") || strings.HasSuffix(pp, "/pkg/entrypoint")) {
+		if !(strings.HasSuffix(pp, "/pkg/output") || strings.HasSuffix(pp, "/pkg/stream") || strings.HasSuffix(pp, "/pkg/entrypoint") || strings.Contains(pp, "/pkg/transformers") || strings.HasSuffix(pp, "/pkg/dsl/cst") || strings.HasSuffix(pp, "/pkg/climain") || strings.HasSuffix(pp, "/pkg/lib")) {
 			continue
 		}
 		k := 0
